@@ -21,6 +21,11 @@ def diff(got, want, path=""):
     if not isinstance(got, tuple) or not isinstance(want, tuple) or not got or not want:
         return ("definite", path, got, want)
     gk, wk = got[0], want[0]
+    # a case distinction of the specification that the implementation ignores (or invents)
+    if wk == "ite" and gk != "ite" and got in (want[2], want[3]) and want[2] != want[3]:
+        return ("definite", path + "/ignores-condition(%s)" % show(want[1])[:40], got, want)
+    if gk == "ite" and wk != "ite" and want in (got[2], got[3]) and got[2] != got[3]:
+        return ("definite", path + "/extra-condition(%s)" % show(got[1])[:40], got, want)
     # polynomial leaves
     if is_poly(got) or is_poly(want):
         ga, wa = _poly_atoms(got), _poly_atoms(want)
